@@ -689,7 +689,6 @@ func c08AlwaysResets(p *Prog, fn *ssa.Function, fld string, depth int, busy map[
 	return true
 }
 
-
 // c08AtomicCheckThenStore: an in-memory mirror of recorded chain data kept in a sync/atomic holder is filled lazily only with
 // CompareAndSwap: `if x.Load() == nil { v := read(); x.Store(v) }` is a check-then-act race — a writer that publishes a newer
 // value between the reader's database read and its Store is overwritten with the older one, and every later answer (finality
